@@ -38,13 +38,19 @@ def exec_SC(t):
         kw = dict(rounding=r, overflow=o, scale=num(sc, 'int' if sp == 'npint' else sp), bias=num(bi, 'int' if sp == 'npint' else sp))
         lo, hi = lims(s, n)
         safe = all(lo + 1 <= (v - bi) / sc * 2 ** f <= hi - 1 for v in vs)     # no overflow whatever the rounding
-        h = hist_of(n, f, len(vs), *[int(v * 8) % 1009 for v in vs]) % 6
+        h = hist_of(n, f, len(vs), *[int(v * 8) % 1009 for v in vs]) % 7
         # "an object created with scale s and bias b" keeps them through its life: direct construction, a later store,
         # a resize that keeps n_frac (narrowing a wider word), a resize to its own dtype, or both
         if h == 1:
             x = Fxp(None if len(vals) == 1 else np.zeros(len(vals)), s, n, f, **kw)
             x.reset()       # the placeholder value 0 may itself be out of the scaled range (flags are sticky)
             x(v_in) if len(vs) % 2 else x.set_val(v_in)
+        elif h == 6:
+            # an object like a scaled template (the module-level fxp_like): it is a scaled object as well
+            import fxpmath
+            t = Fxp(None if len(vals) == 1 else np.zeros(len(vals)), s, n, f, **kw)
+            t.reset()
+            x = fxpmath.fxp_like(t, v_in)
         elif h == 2 and safe:
             x = Fxp(v_in, s, n + 3, f, **kw)
             x.resize(n_word=n)
